@@ -112,6 +112,11 @@ def name_code(s):
 # are measured with len() and indexed, so they are tuples or lists (of tuples or lists).
 NFORMS = ["tuple", "list", "iter", "gen", "map", "repeat"]
 BFORMS = ["asis", "tuple", "list", "list-of-lists"]
+# a single BARE edge may itself be written as a tuple (u, v) or as a list [u, v] (both are re-packed by the fast
+# generator and stored as one entry by the custom one).  "bare-list" / "list-bare-list": the bare edge as a LIST, a
+# sequence of edges as is / as a list of tuples.  Not for the network variant: its conversion keys dicts by the edge
+# entries, a list entry is unhashable there (same reason as for "list-of-lists").
+BARE_LIST_FORMS = ["bare-list", "list-bare-list"]
 
 
 def make_namer(t, form):
@@ -141,7 +146,11 @@ def reform_build(r, form):
         return r
     bare = len(r) == 2 and all(isinstance(a, int) for a in r)
     if bare:
-        return list(r) if form == "list-of-lists" else r
+        return list(r) if form in ("list-of-lists", "bare-list", "list-bare-list") else r
+    if form == "bare-list":
+        return r
+    if form == "list-bare-list":
+        return list(r)
     if form == "tuple":
         return tuple(tuple(e) if isinstance(e, list) else e for e in r)
     if form == "list":
@@ -153,7 +162,8 @@ def add_forms(case, rng=None, k=None):
     """give the case callback-result forms: drawn from rng, or the k-th combination of a fixed rotation"""
     n_cb = max(1, len(case.get("codes", [])))
     # edges as LISTS only for the custom generator (the network conversion keys dicts by the edge entries)
-    bforms = BFORMS if case.get("tag") == MOTIFS else BFORMS[:3]
+    tag = case.get("tag")
+    bforms = BFORMS + BARE_LIST_FORMS if tag == MOTIFS else BFORMS[:3] + (BARE_LIST_FORMS if tag == FAST else [])
     if rng is not None:
         case["nforms"] = [rng.choice(NFORMS) for _ in range(n_cb)]
         case["bform"] = rng.choice(bforms)
@@ -1180,6 +1190,13 @@ def common_corpus():
     # computed from the length before the re-pack)
     out.append({"tag": FAST, "via": "main", "jds": [[1, 1], [1, 1], [0, 1]], "sizes": [2, 3], "codes": [BARE, CLIQUE],
                 "names": [[7], [8]], "mis": [], "pis": [[1, 0], [2, 0, 1]]})
+    # the same with the bare edge written as a LIST [u, v] (C01-r7-1 / C02-r7-2: re-pack narrowed to tuples), direct
+    # and through the factory, on bare edges cut from a larger motif size as well
+    out.append({"tag": FAST, "via": "direct", "jds": [[1, 1], [1, 1], [0, 1]], "sizes": [2, 3], "codes": [BARE, CLIQUE],
+                "names": [[7], [8]], "mis": [], "pis": [[1, 0], [2, 0, 1]], "bform": "bare-list", "nforms": ["tuple"]})
+    out.append({"tag": FAST, "via": "factory", "jds": [[1, 2], [1, 2], [1, 2]], "sizes": [3, 2], "codes": [BARE, BARE],
+                "names": [[7], [8]], "mis": [], "pis": [[2, 0, 1], [5, 1, 0, 4, 2, 3]], "bform": "list-bare-list",
+                "nforms": ["tuple"]})
     return out
 
 
